@@ -18,6 +18,7 @@ func cmdEdf(args []string) int {
 	table := fs.String("table", "", "write the table of registered types, atoms and errors (json)")
 	in := fs.String("in", "", "cases (ndjson)")
 	out := fs.String("out", "", "observations (ndjson)")
+	wire := fs.Bool("wire", false, "send the cases between two real nodes instead of calling the codec")
 	fs.Parse(args)
 	if err := edffam.Register(); err != nil {
 		fmt.Fprintln(os.Stderr, err)
@@ -38,7 +39,11 @@ func cmdEdf(args []string) int {
 	if *in == "" {
 		return 0
 	}
-	n, err := edffam.Run(*in, *out)
+	run := edffam.Run
+	if *wire {
+		run = edffam.RunWire
+	}
+	n, err := run(*in, *out)
 	if err != nil {
 		fmt.Fprintln(os.Stderr, err)
 		return 2
